@@ -12,7 +12,7 @@ CONFIG = {'level': 'proof',
  'trusted': ['zstd crate: decompress(compress(x)) = x and context-history independence (exercised, not proved)']}
 
 MANIFEST = {'category': 'proof',
- 'text': 'Lean theorems about Model/{CollVarint,Zigzag,Names,Details}.lean: prefix-varint, predictive-zigzag, '
+ 'text': 'Lean theorems about Model/{CollVarint,Zigzag,Names,Details}.lean: prefix-varint, predictive-zigzag (both inverses: canonical codes), '
          'string, sample-name, contig-name (any table of names over bytes 1..127), 5-stream descriptor (any table, '
          'ids < i32::MAX, segment_size+k <= 2^31) round trips, predictor-table synchronisation, 50-sample batches '
          'with the cursor, registration order. The models are executed against the real (de)serialisers through the '
